@@ -462,6 +462,8 @@ def _ite(I, c, a, b):
     if (isinstance(a, SV) and a.ty == STR and isinstance(b, str)) or (isinstance(b, SV) and b.ty == STR and isinstance(a, str)):
         return SV(z3.simplify(z3.If(c, pack(I.ctx, a, STR), pack(I.ctx, b, STR))), STR)
     ta, tb = ty_of(a), ty_of(b)
+    if isinstance(a, str) and isinstance(b, str) and ta != tb:
+        return SV(z3.If(c, z3.StringVal(a), z3.StringVal(b)), STR)
     if ta is None or tb is None:
         raise Unsupported("ite of untyped values")
     if ta != tb:
